@@ -77,6 +77,37 @@ theorem sweeps_is {sw : Sweep K} (h : SweepIs sw n A N) (hs : Sweep.SizeOk sw n)
   | succ k ih =>
     rw [sweeps_succ, ih _ _ (hs f x t hf hx), h f x t hf hx, step_step, ← powB_succ']
 
+/-- the sweep shape of amgcl's damped Jacobi / SPAI-0 (`residual(rhs, A, x, tmp); x += M * tmp`) with the diagonal
+`M` stored as a matrix `s`: it is the step with `N = matOf s` -/
+theorem sweepIs_of_residual_spmv (A s : CRS K) {n : Nat} (hA : A.nrows = n) (hcA : ColsLt A n) (hs : s.nrows = n)
+    (hcs : ColsLt s n) :
+    SweepIs (fun f x _ => (spmv 1 s (residual f A x) 1 x, residual f A x)) n (matOf A n n) (matOf s n n) := by
+  intro f x t _ _
+  simp only
+  rw [vecOf_spmv1 s hs hcs, vecOf_residual A hA hcA, step, add_comm]
+
+/-- a smoother record of the shape of amgcl's diagonal smoothers (damped Jacobi, SPAI-0): the state is the diagonal
+matrix `M` (as a `CRS`), a sweep is `residual(rhs, A, x, tmp); x += M * tmp` -/
+def diagSmoother (mk : CRS K → CRS K) : Smoother K (CRS K) where
+  setup A := .ok (mk A)
+  applyPre s A f x _ := (spmv 1 s (residual f A x) 1 x, residual f A x)
+  applyPost s A f x _ := (spmv 1 s (residual f A x) 1 x, residual f A x)
+  apply s _ f := spmv 1 s f 0 f
+
+/-- such a sweep is scratch independent, jointly linear and size preserving -/
+theorem smOK_diagSmoother (mk : CRS K → CRS K) (A s : CRS K) {n : Nat} (hA : A.nrows = n) (hs : s.nrows = n) :
+    SmOK ((diagSmoother mk).applyPre s A) ((diagSmoother mk).applyPost s A) n := by
+  have hind : Sweep.ScratchIndep (fun (f x _t : Vec K) => (spmv 1 s (residual f A x) 1 x, residual f A x)) :=
+    fun f x t t' => rfl
+  have hlin : Sweep.JointlyLinear (fun (f x _t : Vec K) => (spmv 1 s (residual f A x) 1 x, residual f A x)) n := by
+    intro a b f g x y t t1 t2 hf hg hx hy
+    simp only
+    rw [residual_vlin A a b f g x y (by rw [hf, hg]) (by rw [hx, hy]) (by rw [hf, hA]),
+      spmv1_vlin s a b _ _ x y (by simp [residual_size']) (by rw [hx, hy])]
+  have hsz : Sweep.SizeOk (fun (f x _t : Vec K) => (spmv 1 s (residual f A x) 1 x, residual f A x)) n := by
+    intro f x t _ _; simp only; rw [spmv_size', hs]
+  exact ⟨hind, hind, hlin, hlin, hsz, hsz⟩
+
 end sweeps
 
 section body
@@ -91,7 +122,7 @@ def cyc (prm : Params) : CycPrm := ⟨prm.npre, prm.npost, prm.ncycle⟩
 theorem cycleBody_is (hsm : SmOK (sm.applyPre s A) (sm.applyPost s A) n) (hsh : InnerShape A P R n m)
     (hcA : ColsLt A n) (hcP : ColsLt P m) (hcR : ColsLt R n)
     (h1 : SweepIs (sm.applyPre s A) n (matOf A n n) N₁) (h2 : SweepIs (sm.applyPost s A) n (matOf A n n) N₂)
-    (hrc : CycOK rc len m)
+    (_hrc : CycOK rc len m)
     (hrcB : ∀ scr g, scr.length = len → g.size = m → vecOf m (rc scr g (vclear m)).1 = Bc *ᵥ vecOf m g)
     (rhs : Vec K) (st : CycSt K) (hr : rhs.size = n) (hx : st.1.size = n) (hl : st.2.2.2.length + 1 = len) :
     vecOf n (cycleBody prm sm s A P R m rc rhs st).1 =
@@ -140,7 +171,7 @@ inductive Realizes (sm : Smoother K S) (direct : CRS K → Vec K → Vec K) :
     (n : Nat) → List (Level K S) → Hier K n → Prop
   | solveLast (n : Nat) (lv : Level K S) (Ad : CRS K) :
       lv.solve = some Ad → DirectOK (direct Ad) n → IsUnit (matOf Ad n n).det →
-      (∀ f : Vec K, f.size = n → vecOf n (direct Ad f) = (matOf Ad n n)⁻¹ *ᵥ vecOf n f) →
+      (∀ f : Vec K, f.size = n → matOf Ad n n *ᵥ vecOf n (direct Ad f) = vecOf n f) →
       Realizes sm direct n [lv] (.direct (matOf Ad n n))
   | relaxLast (n : Nat) (lv : Level K S) (A : CRS K) (s : S) (N₁ N₂ : Matrix (Fin n) (Fin n) K) :
       lv.solve = none → lv.A = some A → lv.relax = some s → SmOK (sm.applyPre s A) (sm.applyPost s A) n →
@@ -177,7 +208,9 @@ theorem cycle_realizes (prm : Params) {n : Nat} {ls : List (Level K S)} {h : Hie
     match scr, hl with
     | [sc], _ =>
       simp only [cycle, hs, Hier.A, Hier.B]
-      rw [hinv f hf, step, mulVec_sub, mulVec_mulVec, nonsing_inv_mul _ hu, one_mulVec]; abel
+      have hd' : vecOf n (direct Ad f) = (matOf Ad n n)⁻¹ *ᵥ vecOf n f := by
+        rw [← hinv f hf, mulVec_mulVec, nonsing_inv_mul _ hu, one_mulVec]
+      rw [hd', step, mulVec_sub, mulVec_mulVec, nonsing_inv_mul _ hu, one_mulVec]; abel
   | relaxLast n lv A s N₁ N₂ hs hA hrl hsm h1 h2 =>
     intro scr f x hl hf hx
     match scr, hl with
